@@ -81,7 +81,7 @@ def replay_path(g, path, pid, ctx, via="ccsds", kinds=None):
         ev, items, outcome = framer_io.run_framer(data, k, rsize, skip, chooser=script,
                                                   max_items=len(exp) + 2, via=via)
         case = {"data": list(data), "kind": k, "rsize": rsize, "skip": skip, "chunks": chunks,
-                "expected": exp, "via": "ccsds" if via == "ccsds" else "packet_generator"}
+                "expected": exp, "via": "ccsds" if isinstance(via, str) else "packet_generator"}
         got = [bytes(i) for i in items]
         want = [data[s:s + n] for s, n in exp]
         prob = None
